@@ -180,6 +180,10 @@ def run(tier, seed, replay=None):
     from checks import bounds_common
     bounds_common.add_bounds(ck, mod, tier, "C08")
     ck.replayers["bounds."] = replay_reader
+    from checks import reader_common
+    reader_common.wiring(ck, mod)
+    reader_common.vector_raw(ck, mod)
+    ck.replayers["reader."] = replay_reader
     for nm in ("DigitalRFReader.read", "DigitalRFReader.get_continuous_blocks", "DigitalRFReader.read_vector_raw", "DigitalRFReader._get_file_list",
                "DigitalRFReader.get_bounds", "_top_level_dir_properties._get_bounds"):
         ck.add_function(pyload.source_info(mod, nm))
@@ -192,6 +196,6 @@ def run(tier, seed, replay=None):
                             r["cases"], r["failures"]))
     ck.trust({"h5py slicing / numpy": "assumed (rf_data[a:b] returns rows a..b-1; concatenate preserves order)", "sorted(dict.items())": "executed (CPython)"})
     ck.assumptions += ["every file satisfies the per-file index invariant (proved for the writer in C06)",
-                       "_get_file_list, read, read_vector* are covered by the bounded differential only (labelled bounded); get_bounds: file edges, directory scan and merge are under contract, list_drf.ilsdrf's ordering is assumed there (C14)"]
+                       "_get_file_list is covered by the bounded differential only (labelled bounded); read / get_continuous_blocks / read_vector_raw are verified against the contracts of their callees; get_bounds: file edges, directory scan and merge are under contract, list_drf.ilsdrf's ordering is assumed there (C14)"]
     ck.extra["explanation"] = "row arithmetic of _read and the merge of _combine_blocks: path-complete symbolic execution of the real methods with symbolic index rows / block keys; whole-reader coherence: bounded differential against an exact model"
     return ck
